@@ -539,6 +539,10 @@ def fam_hexital(rng, pid, count):
                           pre_choices=(0, 1, 2, n), forms=[rng.choice(["obj", "dict", "settings"]) for _ in cfgs],
                           form=rng.choice(["candle", "candle", "dict"]))
         sc["clause_props"] = {"exc": ["C08"], "stage": ["C08"], "def": ["C08"], "value": ["C08"]}
+        if life is not None and sc["prog"][0][1] > 0 and any(c.timeframe and c.timeframe != base_tf for c in cfgs):
+            # own scenario class (DESIGN.md 5.2): a Hexital built WITH candles and a lifespan creates a
+            # member's timeframe manager from the already trimmed default candles
+            sc["class"] = "hexital_lifespan_preloaded_timeframe"
         out.append(sc)
     return out
 
